@@ -460,7 +460,9 @@ def s6_hours(ctx):
                                   'dt.hour': m // 60, 'dt.minute': m % 60, 'dt.second': 0, 'dt.microsecond': 0, 'dt.dayofweek': wd, 'dt.day_of_week': wd,
                                   'self.open_dt.hour': o // 60, 'self.open_dt.minute': o % 60, 'self.close_dt.hour': c // 60, 'self.close_dt.minute': c % 60,
                                   'dt.time().hour': m // 60, 'dt.time().minute': m % 60})
-            ps = summarise(ctx, fn, policy=default_policy, oracle=val)
+            # (the answer may be put together from other methods of the exchange itself - what phase of the week it is in - and of the records they hand out)
+            ps = summarise(ctx, fn, policy=lambda a_, b_, d_: default_policy(a_, b_, d_) or (d_ <= 4 and b_.cls is not None and b_.cls.name == 'SimulatedExchange'
+                                                                                           and not b_.name.startswith('__') and b_.qn != fn.qn), oracle=val)
             n += 1
             spec = wd <= 4 and o <= m < c
             res = set()
